@@ -12,9 +12,9 @@ MANIFEST = dict(
         "(1) batch = row-wise single evaluation, exact arithmetic: dense layers with every element-wise activation, ConcatenatedModel chains of any "
         "length and any layer kinds (row i of the output depends on row i of the input only, and equals the evaluation of the one-row batch), "
         "Normalizer, Classifier<LinearModel> (label of row i = decision on the single evaluation), max pooling, linear gathers (ResizeLayer), RBFLayer, "
-        "KernelExpansion over any kernel function, weighted-mean Ensemble over members that satisfy batch = single, CMAC. "
+        "KernelExpansion over any kernel function, weighted-mean and voting Ensemble over members that satisfy batch = single, CMAC, Conv2DModel. "
         "(2) parameterVector/setParameterVector round trip with the reported count: dense layer, chain (optimised and frozen layers), Normalizer, "
-        "KernelExpansion, RBFLayer (over the reals, log/exp encoding of the widths), CMAC. "
+        "KernelExpansion, RBFLayer (over the reals, log/exp encoding of the widths), CMAC, Conv2DModel. "
         "(3) derivatives over the reals (HasDerivAt of the coefficient-weighted output sum): dense layer weight/offset/input derivatives for every "
         "activation (rectifier/fast sigmoid away from the kink); softmax and normalizer Jacobian-vector products; "
         "the executable backward pass Chain.backward of a ConcatenatedModel of any length made of dense, element-wise neuron, softmax and normalizer "
@@ -22,7 +22,8 @@ MANIFEST = dict(
         "W[k][j] / b[k] of any optimised dense layer is the partial derivative w.r.t. that parameter (induction over the chain, "
         "chain_input/weight/offset_derivative_correct, chain_curve_hasDerivAt), next to the abstract Frechet chain rule concat_chain_rule; "
         "max-pooling input derivative (no tie in the patch of the pixel); input derivative of any linear gather (ResizeLayer taps); RBFLayer centre "
-        "and log-width gradients at their positions in the gradient vector; CMAC parameter derivative. "
+        "and log-width gradients at their positions in the gradient vector; CMAC parameter derivative; Conv2DModel (both paddings, every activation away "
+        "from its kink) input derivative and filter/offset gradients at their positions in the gradient vector. "
         "(4) Classifier: argmax returns an index of a maximal entry and the first such (and is characterised by that), with bias the first maximum of "
         "z + bias, a single output is thresholded at 0; max pooling returns the maximum of its patch, attained at the pixel the derivative selects; "
         "the votes of a voting ensemble sum to 1. "
@@ -34,12 +35,13 @@ MANIFEST = dict(
         "evaluation, one-row batches, state vs stateless, combined vs separate derivative calls, derivative results independent of the previous "
         "content of the result object, parameter round trip and count, central finite differences for every advertised derivative."),
   note=TRUST + "PARTIAL. Proved: the items (1)-(4) above about the executable models. Only exercised by the correspondence (no theorem): "
-       "Conv2DModel derivatives (model = defining sums; batch = single and the packing are definitional), the spline taps of ResizeLayer (the derivative "
+       "the im2mat/gemm/reorder implementation of Conv2DModel (the model is the defining sum over filter taps), the spline taps of ResizeLayer (the derivative "
        "theorem holds for arbitrary taps), voting ensembles' batch = single, KernelExpansion with the Gaussian kernel (theorem is for an arbitrary kernel "
        "function), CMAC tile index arithmetic (theorem is for an arbitrary index function). Not modelled: sparse inputs, DropoutLayer (random), "
        "OpenCL back ends, Padding::RepeatBorder, floating-point rounding. Findings on the real code (modelled as repaired, inputs in corpus/C04, "
        "findings_proposed/C04.md): F-C04-1 Classifier single evaluation ignores the bias, F-C04-2 PoolingLayer input derivative accumulates into "
-       "the result object, F-C04-3 voting Ensemble of single-output classifiers writes out of bounds.",
+       "the result object, F-C04-3 voting Ensemble of single-output classifiers writes out of bounds, F-C04-4 Conv2DModel input derivative wrong "
+       "(backprop filter layout; even filter sizes with zero padding).",
   technique="Lean 4 proofs (exact algebra over Rat, HasDerivAt/chain rule over Real, induction over the layer chain) + exact / bit-exact differential correspondence with the C++ models",
   design="§6 C04")
 FINISH = dict(level="proof",
